@@ -52,6 +52,16 @@ func c04Rules(p *core.Prog, r *core.Run) {
 	// entered for it: the mode rules of C06 (counter set before the
 	// HelloRetryRequest goes out, read after the record came in, ...)
 	c06State(p, r, m, "C04.hrr")
+	// an aborted second hello is not delivered later either
+	// vectors in the hello are read to their end (a truncated last item is a
+	// decode error, not something to drop)
+	for _, fn := range []*ssa.Function{m.parseCH, m.parseExt, m.process} {
+		if fn != nil {
+			vectorLoopsRunDry(p, r, fn, "C04.G7.vectors")
+		}
+	}
+	refusedNotBuffered(p, r, m, "C04.hrr.abort")
+	directionOwnership(p, r, m, "C04.hrr.alert")
 
 	// the outer hello in handle = result 0 of parseClientHello(record[5:])
 	isOuter := func(e *core.Expr) bool {
@@ -350,7 +360,16 @@ func c04Padding(p *core.Prog, r *core.Run, m *echModel) {
 			var load *ssa.UnOp
 			if ia, ok := elem.Val.(*ssa.UnOp); ok { // load of IndexAddr
 				if idx, ok := ia.X.(*ssa.IndexAddr); ok {
-					load, _ = idx.X.(*ssa.UnOp)
+					src := idx.X
+					for {
+						// (the remainder handed to a helper as []byte is the cursor's value under a type change)
+						if ct, isCT := src.(*ssa.ChangeType); isCT {
+							src = ct.X
+							continue
+						}
+						break
+					}
+					load, _ = src.(*ssa.UnOp)
 				}
 			}
 			_ = base
@@ -513,6 +532,11 @@ func checkCursor(p *core.Prog, r *core.Run, m *echModel, rule string, app *ssa.C
 	idx := elem.Args[1]
 	pos := p.InstrPos(app)
 	phi, ok := idx.Val.(*ssa.Phi)
+	if bo, isSum := idx.Val.(*ssa.BinOp); !ok && isSum && bo.Op == token.ADD {
+		if checkCursorSearch(p, r, m, rule, app, st, bo) {
+			return
+		}
+	}
 	if !ok {
 		r.Check(rule, "process:cursor", false, pos, "the index of the appended outer extension is not a cursor carried through the reference loop (it is %s): references could be resolved out of order or repeatedly", short(idx))
 		return
@@ -615,6 +639,96 @@ func checkCursor(p *core.Prog, r *core.Run, m *echModel, rule string, app *ssa.C
 	r.Check(rule, "process:search-loop", searchOK, pos, "the search loop stops only at the end of the outer extensions or at an extension whose type equals the reference")
 }
 
+// checkCursorSearch: the same discipline with the search done by the library:
+//
+//	i := slices.IndexFunc(h.Extensions[p:], func(e extension) bool { return e.Type == extType })
+//	if i < 0 { abort }; p += i; append(h.Extensions[p]); p++
+//
+// the element appended is h.Extensions[p+i] with p the carried cursor and i the
+// (non-negative) position of the first extension of the referenced type at or
+// after the cursor; the cursor continues one past the match.
+func checkCursorSearch(p *core.Prog, r *core.Run, m *echModel, rule string, app *ssa.Call, st *ssa.Store, sum *ssa.BinOp) bool {
+	pos := p.InstrPos(app)
+	cur, okC := sum.X.(*ssa.Phi)
+	find, okF := sum.Y.(*ssa.Call)
+	if !okC || !okF {
+		cur, okC = sum.Y.(*ssa.Phi)
+		find, okF = sum.X.(*ssa.Call)
+	}
+	if !okC || !okF {
+		return false
+	}
+	fx := p.X(find)
+	if fx.Name != "slices.IndexFunc" || len(fx.Args) != 2 {
+		return false
+	}
+	// searched: h.Extensions[cursor:]
+	hay := fx.Args[0]
+	fromCursor := hay.Op == "slice" && hay.Args[0].Op == "field" && hay.Args[0].Obj == m.fCH["Extensions"] && hay.Args[0].Args[0].Val == ssa.Value(m.helloP) && hay.Args[1].Val == ssa.Value(cur) && hay.Args[2].Name == "_"
+	r.Check(rule, "process:cursor", fromCursor, pos, "the referenced extension is searched for in the outer extensions from the carried cursor on: %s", short(hay))
+	// predicate: the element's type equals the reference just read
+	okPred := false
+	if mc, isMC := find.Call.Args[1].(*ssa.MakeClosure); isMC {
+		if pred, isFn := mc.Fn.(*ssa.Function); isFn && len(pred.Params) == 1 {
+			okPred = true
+			p.WithCreator(mc, func() {
+				for _, ret := range core.Returns(pred) {
+					x := p.X(ret.Results[0])
+					if !(x.Op == "bin" && x.Name == "==" && x.Args[0].Op == "field" && x.Args[0].Name == "Type" && x.Args[0].Args[0].Val == ssa.Value(pred.Params[0]) && isRefValue(x.Args[1])) {
+						okPred = false
+					}
+				}
+			})
+		}
+	}
+	r.Check(rule, "process:search-loop", okPred, pos, "the search stops at the first extension whose type equals the reference")
+	// cursor: 0 at a marker, or match position + 1
+	mono, advanced := true, false
+	seen := map[*ssa.Phi]bool{}
+	var visit func(ph *ssa.Phi)
+	visit = func(ph *ssa.Phi) {
+		if seen[ph] {
+			return
+		}
+		seen[ph] = true
+		for _, e := range ph.Edges {
+			switch v := e.(type) {
+			case *ssa.Const:
+				if v.Value == nil || v.Value.ExactString() != "0" {
+					mono = false
+				}
+			case *ssa.Phi:
+				visit(v)
+			case *ssa.BinOp:
+				one, isC := v.Y.(*ssa.Const)
+				if v.Op == token.ADD && isC && one.Value != nil && one.Value.ExactString() == "1" && v.X == ssa.Value(sum) {
+					advanced = true
+				} else {
+					mono = false
+				}
+			default:
+				mono = false
+			}
+		}
+	}
+	visit(cur)
+	r.Check(rule, "process:cursor-monotonic", mono, pos, "the outer-extension cursor starts at 0 for a marker and otherwise continues from a match (never reset or moved back)")
+	r.Check(rule, "process:cursor-advance", advanced, pos, "after the match the cursor is advanced past it, so an extension cannot be referenced twice and later references search forward only")
+	found := false
+	for _, f := range p.Facts(app.Block()) {
+		if f.L.Val == ssa.Value(find) && f.R != nil {
+			if k, isK := f.R.ConstInt(); isK && (f.Op == ">=" && k == 0 || f.Op == ">" && k == -1 || f.Op == "!=" && k == -1) {
+				found = true
+			}
+		}
+	}
+	r.Check(rule, "process:cursor-in-range", found, pos, "the append is guarded by 'found' (a negative search result aborts)")
+	immediateAbort(p, r, rule, "process:reference-not-found", m.process, cmpAssume("search result < 0", "<",
+		func(e *core.Expr) bool { return e.Val == ssa.Value(find) }, isConstName("0")),
+		"ech.ErrIllegalParameter", func(ret *ssa.Return) bool { return !isNilConst(ret.Results[0]) })
+	return true
+}
+
 func isRefValue(e *core.Expr) bool {
 	for _, a := range e.Alts() {
 		if a.Op == "out" && a.Name == "(*cryptobyte.String).ReadUint16" {
@@ -629,6 +743,10 @@ func isRefValue(e *core.Expr) bool {
 func c04ParserDiscipline(p *core.Prog, r *core.Run, rule string, fns []*ssa.Function, allowed map[string]bool) {
 	n := 0
 	for _, fn := range fns {
+		if fn == nil {
+			r.Undecided(rule, "parser", "-", "one of the parsers this rule covers was not found (renamed or dissolved)")
+			continue
+		}
 		for _, s := range callSites(p, []*ssa.Function{fn}, `\(\*cryptobyte\.String\)\.(Read.*|Skip|Copy.*)`) {
 			c, ok := s.Instr.(*ssa.Call)
 			if !ok {
